@@ -15,8 +15,8 @@ from ginsim import cfgtext, probes, shrink, world
 
 ID = 'C15'
 LEVEL = 'exploration'
-QUICK_RUNS = 4000
-THOROUGH_RUNS = 80000
+QUICK_RUNS = 15000
+THOROUGH_RUNS = 400000
 SHRINK_BUDGET = 250
 RULE = ('run i draws from Random("<seed>/C15/<i>") 1-3 parses of 2-8 '
         'statements (flat bindings, blocks, macro definitions, imports) whose '
